@@ -50,20 +50,28 @@ Definition c01_exactly_once (c : config) (t : list event) : bool :=
   negb (run_returned t) ||
   forallb (fun i => negb (mem_ev (ERunCall i) t) || Nat.eqb (count_ev (EStopCall i) t) 1) (seq 0 (nrun c)).
 
-(* events that can initiate a shutdown *)
-Definition is_trigger (e : event) : bool :=
+(* events that can initiate a shutdown: a Shutdown() call, an INT/TERM SendSignal call, the cancellation of
+   the parent context, a trigger offered by a runnable that IS a ShutdownSender, a runnable's Run returning a
+   non-cancellation error.  No other API call (ReloadAll, SIGHUP, unknown signals), no trigger offered by a
+   runnable that is not a ShutdownSender, no nil / cancellation exit. *)
+Definition is_trigger (c : config) (e : event) : bool :=
   match e with
   | ECall _ OpShutdown | ECall _ (OpSignal SigInt) | ECall _ (OpSignal SigTerm)
-  | EParentCancel | ETrigS _ | ERunRet _ (Some (_, false)) => true
+  | EParentCancel | ERunRet _ (Some (_, false)) => true
+  | ETrigS i => ssender (spec c i)
   | _ => false
   end.
 
-(* no Stop() before shutdown starts: every StopCall is preceded by a trigger (the start-up
-   deadline leaves no event of its own) *)
-Definition chk_not_before (pre : list event) (e : event) : bool :=
-  match e with EStopCall _ => existsb is_trigger pre | _ => true end.
+(* no Stop() before shutdown starts: every StopCall is preceded by a trigger *)
+Definition chk_not_before (c : config) (pre : list event) (e : event) : bool :=
+  match e with EStopCall _ => existsb (is_trigger c) pre | _ => true end.
+Definition c01_not_before_strict (c : config) (t : list event) : bool := all_check (chk_not_before c) t.
+(* The only other cause of a shutdown is the start-up deadline, which leaves no event of its own when it fires
+   (in the model: ghost flag su_fired).  On a trace it shows only later: Run() then returns the start-up
+   timeout error.  The trace form therefore excuses exactly the traces in which Run() returned that error, or -
+   when the deadline can fire - has not returned yet; the model form (C01_not_before) has no excuse. *)
 Definition c01_not_before (c : config) (t : list event) : bool :=
-  startup_may_fire c || all_check chk_not_before t.
+  c01_not_before_strict c t || mem_ev (ERunReturn ResTimeout) t || (startup_may_fire c && negb (run_returned t)).
 
 Definition c01_holdsb (c : config) (t : list event) : bool :=
   c01_order c t && c01_exactly_once c t && c01_not_before c t.
@@ -140,9 +148,13 @@ Definition chk_result (c : config) (pre : list event) (e : event) : bool :=
 Definition c04_holdsb (c : config) (t : list event) : bool := all_check (chk_result c) t.
 
 (* SIGHUP / unknown signals / nil exits / cancellation errors never make Run() return: when Run()
-   returns, a shutdown trigger has occurred (or the start-up deadline could fire) *)
+   returns, a shutdown trigger has occurred - the only excuse is the genuine start-up timeout path: Run()
+   returns the start-up timeout error (and that deadline can fire) *)
 Definition chk_cause (c : config) (pre : list event) (e : event) : bool :=
-  match e with ERunReturn _ => startup_may_fire c || existsb is_trigger pre | _ => true end.
+  match e with
+  | ERunReturn r => existsb (is_trigger c) pre || (startup_may_fire c && result_eqb r ResTimeout)
+  | _ => true
+  end.
 Definition c04_needs_cause (c : config) (t : list event) : bool := all_check (chk_cause c) t.
 
 (* if no runnable returned a real error, Run() returns nil *)
@@ -298,19 +310,20 @@ Definition c18_bounded (c : config) (t : list event) : bool := c18_bounded_aux c
 (* ---------------------------------------------------------------- C04 (reports clause) *)
 
 (* shutdown triggers other than a runnable's failure *)
-Definition is_nonfail_trigger (e : event) : bool :=
+Definition is_nonfail_trigger (c : config) (e : event) : bool :=
   match e with
   | ECall _ OpShutdown | ECall _ (OpSignal SigInt) | ECall _ (OpSignal SigTerm)
-  | EParentCancel | ETrigS _ => true
+  | EParentCancel => true
+  | ETrigS i => ssender (spec c i)
   | _ => false
   end.
 
 (* Run() returns nil only after a trigger that is not a failure: so when a runnable fails and no
    other trigger occurs, the result is not nil - by chk_result it is then a runnable's real error
    (or the start-up timeout when that deadline can fire) *)
-Definition chk_reports (pre : list event) (e : event) : bool :=
-  match e with ERunReturn ResNil => existsb is_nonfail_trigger pre | _ => true end.
-Definition c04_reports (c : config) (t : list event) : bool := all_check chk_reports t.
+Definition chk_reports (c : config) (pre : list event) (e : event) : bool :=
+  match e with ERunReturn ResNil => existsb (is_nonfail_trigger c) pre | _ => true end.
+Definition c04_reports (c : config) (t : list event) : bool := all_check (chk_reports c) t.
 
 (* ---------------------------------------------------------------- C06 (a subscriber learns new entries) *)
 
